@@ -335,3 +335,50 @@ pub(crate) fn note_traverse_fallback(clique0_dead: bool) {
 pub fn take_traverse_fallback_counts() -> (usize, usize) {
     (TRAVERSE_FALLBACK.swap(0, Ordering::Relaxed), TRAVERSE_FALLBACK_C0_DEAD.swap(0, Ordering::Relaxed))
 }
+
+/// The clique-graph strategy step by step: like `merge_trace(.., "clique_graph")`, and in
+/// addition the clique graph handed to Kruskal — entries (row, col, |C_row ∩ C_col|) in storage
+/// order with the flag "taken into the spanning tree" — computed on a copy before the real
+/// `post_process_merge` runs.  `kruskal` is None when a single clique is left.
+pub struct CgPostTrace {
+    pub trace: MergeTrace,
+    pub kruskal: Option<(Vec<(usize, usize, isize)>, Vec<bool>)>,
+}
+pub fn merge_trace_cg(nz_mask: &[bool]) -> CgPostTrace {
+    let (L, ordering) = ChordalInfo::<f64>::verif_find_graph(nz_mask);
+    let mut t = SuperNodeTree::new(&L);
+    let before = snap_tree(&t, &ordering);
+    let before_snode_raw: Vec<Vec<usize>> = t.snode.iter().map(|s| s.iter().cloned().collect()).collect();
+    let before_sep_raw: Vec<Vec<usize>> = t.separators.iter().map(|s| s.iter().cloned().collect()).collect();
+    let mut decisions = vec![];
+    let mut loop_end_snode = before.snode.clone();
+    let mut kruskal = None;
+    if t.n_cliques > 1 {
+        let mut s = CliqueGraphMergeStrategy::new();
+        s.initialise(&mut t);
+        while !s.is_done() {
+            let Some(cand) = s.traverse(&t) else {
+                break;
+            };
+            let do_merge = s.evaluate(&t, cand);
+            if do_merge {
+                s.merge_two_cliques(&mut t, cand);
+            }
+            s.update_strategy(&t, cand, do_merge);
+            decisions.push((cand.0, cand.1, do_merge));
+            if t.n_cliques == 1 {
+                break;
+            }
+        }
+        loop_end_snode = t.snode.iter().map(sorted).collect();
+        if t.n_cliques > 1 {
+            kruskal = Some(s.verif_kruskal_trace(&t));
+        }
+        s.post_process_merge(&mut t);
+    }
+    let after = snap_tree(&t, &ordering);
+    CgPostTrace {
+        trace: MergeTrace { before_snode_raw, before_sep_raw, before, decisions, loop_end_snode, after },
+        kruskal,
+    }
+}
